@@ -693,6 +693,21 @@ fn parse_ixdtf(source: &str, variant: ParseVariant) -> TemporalResult<IxdtfParse
             .with_message("Duplicate calendar value with critical flag found."));
     }
 
+    // A fraction of a second has at most nine digits, in the time as well as in the offset.
+    let time_fraction = record.time.and_then(|time| time.fraction);
+    let offset_fraction = match record.offset {
+        Some(UtcOffsetRecordOrZ::Offset(offset)) => offset.fraction,
+        _ => None,
+    };
+    if [time_fraction, offset_fraction]
+        .iter()
+        .flatten()
+        .any(|fraction| fraction.to_nanoseconds().is_none())
+    {
+        return Err(TemporalError::range()
+            .with_message("Fractional seconds cannot have more than nine digits."));
+    }
+
     // Validate that the DateRecord exists.
     if variant != ParseVariant::Time && record.date.is_none() {
         return Err(
